@@ -52,7 +52,7 @@ def main(argv):
             # the two Shift-JIS premises of the theorems against encoding_rs, over all of Unicode (also writes the repertoire)
             lines += run_harness(v, ['sjis'], seed)
             if tier == 'quick':
-                lines += run_harness(v, ['args', 260], seed) + run_harness(v, ['meta', 270], seed) + run_harness(v, ['lit', 300], seed)
+                lines += run_harness(v, ['args', 220], seed) + run_harness(v, ['meta', 270], seed) + run_harness(v, ['lit', 200], seed)
             else:
                 lines += run_harness(v, ['args', 2000, 'all'], seed) + run_harness(v, ['meta', 2250], seed) + run_harness(v, ['lit', 3000], seed)
         for l in lines:
